@@ -41,6 +41,12 @@ let handle (line : ostr) : ostr =
     let o = { o_flat = b 0; o_bin = b 1; o_anno = b 2; o_dov = b 3; o_actop = b 4 } in
     let fuel = nat_of_int (2 * int_of_nat (node_size n) + 8) in
     res_out (fun js -> "[" ^ OS.concat "," (List.map jn_out js) ^ "]") (to_json_node vis_T o fuel n)
+  | ["shared"; tree] ->
+    (* Spec/Shared.v: left and right shared text of every value of the root node, in written order *)
+    let n = node_of_string tree in
+    let fuel = nat_of_int (2 * int_of_nat (node_size n) + 8) in
+    let strs l = "[" ^ OS.concat "," (List.map (fun x -> "\"" ^ hex_of_bytes x ^ "\"") l) ^ "]" in
+    "ok [" ^ OS.concat "," (List.map (fun (l, r) -> "[" ^ strs l ^ "," ^ strs r ^ "]") (eff_shared fuel n [])) ^ "]"
   | ["lvn"; flags; tree] ->
     (* specification Spec/VisView.v: the shown values (comp, text, level, flat label) of the root node *)
     let n = node_of_string tree in
@@ -48,7 +54,7 @@ let handle (line : ostr) : ostr =
     let fuel = nat_of_int (2 * int_of_nat (node_size n) + 8) in
     let sv (((c, t), l), p) = "[\"" ^ hex_of_bytes c ^ "\",\"" ^ hex_of_bytes t ^ "\"," ^ string_of_int (int_of_nat l) ^ ","
                               ^ (match p with None -> "null" | Some x -> "\"" ^ hex_of_bytes x ^ "\"") ^ "]" in
-    res_out (fun vs -> "[" ^ OS.concat "," (List.map sv vs) ^ "]") (lv vis_T (b 0) (b 4) fuel None n [] O)
+    res_out (fun vs -> "[" ^ OS.concat "," (List.map sv vs) ^ "]") (lv (spec_vis vis_T) (b 0) (b 4) fuel None n [] O)
   | ["tab"; flags; po; pi; id; orig; igs; tree] ->
     (* static tabular export of a root node: per top-level statement its rows and its printed text *)
     let n = node_of_string tree in
